@@ -36,6 +36,42 @@ def appendInOrder : Bool := true
 
 def timeoutSkipsRow : Bool := true
 
+/-- every scan worker turns a `ZeroDivisionError` of the simulator into a failed result (`guardZeroDiv`) -/
+def workersCatchZeroDivision : Bool := true
+
+/-- `Simulation.default` does not raise for a model that cannot be evaluated at its initial state -/
+def placeholderSurvivesZeroDivision : Bool := true
+
+/-- `time_points[time_points >= 0]` -/
+def tcKeeps (t : Rat) : Bool := decide (t ≥ (0 : Rat))
+
+/-- the start that is inserted when missing -/
+def tcStart : Rat := (0 : Rat)
+
+/-- `_time_points_of_time_course` -/
+def tcPlaceholder (tps : List Rat) : List Rat :=
+  let kept := tps.filter tcKeeps
+  if kept.length == 0 || kept.head? != some tcStart then tcStart :: kept else kept
+
+/-- `points[(points > 0) & (points <= ends[-1])]` -/
+def ptcKeeps (t tEnd : Rat) : Bool := decide (t > (0 : Rat)) && decide (t ≤ tEnd)
+
+def ptcStart : Rat := (0 : Rat)
+
+def protoStart : Rat := (0 : Rat)
+
+/-- `np.linspace(t_start, t_end, time_points_per_step + 1)[1:]` -/
+def protoPoints (n : Nat) : Nat := n + 1
+def protoDrop : Nat := 1
+
+/-- the loop of `_time_points_of_protocol` (`linspace` is the model's `np.linspace`) -/
+def protoSteps (linspace : Rat → Rat → Nat → List Rat) (n : Nat) : Rat → List Rat → List Rat
+  | _, [] => []
+  | tStart, tEnd :: rest => (linspace tStart tEnd (protoPoints n)).drop protoDrop ++ protoSteps linspace n tEnd rest
+
+def protoPlaceholder (linspace : Rat → Rat → Nat → List Rat) (n : Nat) (ends : List Rat) : List Rat :=
+  protoStart :: protoSteps linspace n protoStart ends
+
 def drivers : List Driver := [
   { module := "scan", name := "steady_state", table := "to_scan", container := .positional, workerY0None := true, y0OnModel := true, passesParallel := true, passesMaxWorkers := false, passesCache := true, passesTimeout := false },
   { module := "scan", name := "time_course", table := "to_scan", container := .byLabel, workerY0None := true, y0OnModel := true, passesParallel := true, passesMaxWorkers := false, passesCache := true, passesTimeout := false },
